@@ -30,7 +30,7 @@ def gen_cases(tier, seed):
                       "eps": float(rng.choice([1e-5, 1e-3, 0.5])), "n_events": int(rng.integers(5, 31)), "seed": int(rng.integers(2 ** 31))})
     for k in range(6 if tier == "quick" else 60):
         cases.append({"kind": "nested-mode", "seed": int(rng.integers(2 ** 31)), "variant": k})
-    for p in (0, 0.1, 0.3, 0.5, 0.9, 1):
+    for p in (0, 0.1, 0.3, 0.5, 0.9, 1, 0.002, 0.998):
         for dt in ("float32", "float64"):
             for rep in range(1 if tier == "quick" else 20):
                 cases.append({"kind": "dropout", "p": p, "dtype": dt, "seed": int(rng.integers(2 ** 31)), "shape": [[200, 200], [50, 40, 20], [40000]][rep % 3]})
